@@ -175,6 +175,8 @@ func openBackend(backend, dir string) (store.Store, error) {
 		return badger.OpenWithOptions(badgerlib.DefaultOptions("").WithInMemory(true).WithLoggingLevel(badgerlib.ERROR))
 	case "badgerdisk":
 		return badger.OpenWithOptions(badgerlib.DefaultOptions(dir).WithLoggingLevel(badgerlib.ERROR))
+	case "badgeropen": // the adapter's own Open, with whatever options it chooses (logs to stderr)
+		return badger.Open(dir)
 	}
 	return nil, fmt.Errorf("unknown backend %s", backend)
 }
